@@ -113,12 +113,13 @@ func (h *heartbeatManager) checkSessions() {
 
 	for id, session := range sessions {
 		// Skip already disconnected sessions
+		session.mu.Lock()
 		if !session.Connected || !session.Active {
+			session.mu.Unlock()
 			continue
 		}
 
-		// Check if session has timed out
-		session.mu.Lock()
+		// Check if the session has timed out
 		lastActivity := session.LastActivity
 		if now.Sub(lastActivity) > h.config.Timeout {
 			log.Warn("Session %s timed out after %.1fs of inactivity",
@@ -129,6 +130,7 @@ func (h *heartbeatManager) checkSessions() {
 			session.mu.Unlock()
 			continue
 		}
+		session.mu.Unlock()
 
 		// If sending empty responses is enabled, send a heartbeat
 		if h.config.SendEmptyResponses && now.Sub(lastActivity) > h.config.Interval {
@@ -139,18 +141,28 @@ func (h *heartbeatManager) checkSessions() {
 				Codec:      proto.CompressionCodec_NONE,
 			}
 
-			// Send heartbeat (don't block on lock for too long)
-			if err := session.Stream.Send(heartbeat); err != nil {
+			// The monitor serves every session and must not wait for one
+			// replica: the session's own goroutine sends the heartbeat (and
+			// refreshes LastActivity once the replica took it).
+			if session.outbox != nil {
+				select {
+				case session.outbox <- heartbeat:
+				default:
+				}
+				continue
+			}
+
+			if err := session.transmit(heartbeat); err != nil {
 				log.Error("Failed to send heartbeat to session %s: %v", id, err)
+				session.mu.Lock()
 				session.Connected = false
 				session.Active = false
+				session.mu.Unlock()
 				deadSessions = append(deadSessions, id)
 			} else {
-				session.LastActivity = now
 				log.Debug("Sent heartbeat to session %s", id)
 			}
 		}
-		session.mu.Unlock()
 	}
 
 	// Clean up dead sessions
@@ -174,17 +186,15 @@ func (h *heartbeatManager) pingSession(sessionID string) bool {
 	}
 
 	// Attempt to send a heartbeat
-	session.mu.Lock()
-	defer session.mu.Unlock()
-
-	if err := session.Stream.Send(heartbeat); err != nil {
+	if err := session.transmit(heartbeat); err != nil {
 		log.Error("Failed to ping session %s: %v", sessionID, err)
+		session.mu.Lock()
 		session.Connected = false
 		session.Active = false
+		session.mu.Unlock()
 		return false
 	}
 
-	session.LastActivity = time.Now()
 	return true
 }
 
